@@ -292,14 +292,58 @@ def bounded(ctx):
                         "synchronisation whose call and device-side record straddle the start of the dropped step: links stay mutual and closed")
 
 
+def caller_vcs() -> List[core.VC]:
+    """parse_trace_file (the only producer of loaded frames): on EVERY returning path the frame it returns went through
+    transform_correlation_to_index - for every file, whatever it contains (a caller that builds the links only for some files
+    breaks the property although the link construction itself is intact)."""
+    name = f"{PROP}.parse_trace_file"
+    f = extract.get_function(TR, "parse_trace_file")
+    ex = pyvc.Exec(consts=extract.module_constants(TR), name=name)
+    fv.install(ex)
+    cols = {"index": (z3.IntSort(), False, "int"), "ts": (z3.IntSort(), False, "int"), "dur": (z3.IntSort(), False, "int"), "cat": (z3.IntSort(), False, "int"),
+            "stream": (z3.IntSort(), False, "int"), "correlation": (z3.IntSort(), False, "int"), "name": (z3.IntSort(), False, "int")}
+    df = fv.SymDF.base("parsed", cols)
+    linked = fv.SymDF.base("linked", {**cols, "index_correlation": (z3.IntSort(), False, "int")})
+    call_pcs: List[Any] = []
+
+    @pyvc.intrinsic
+    def transform(exq, pc, env, args, kwargs):
+        if args and args[0] is df:
+            call_pcs.append(pyvc.z_and(*pc))
+            return linked
+        return args[0]
+
+    def stub(ret=None):
+        @pyvc.intrinsic
+        def f_(exq, pc, env, args, kwargs):
+            return ret(args) if ret else None
+        return f_
+
+    ex.intrinsics["parse_trace_dataframe"] = stub(lambda a: ("meta", df, fv.SymTab("st")))
+    ex.intrinsics["add_fwd_bwd_links"] = stub()
+    ex.intrinsics["transform_correlation_to_index"] = transform
+    ex.intrinsics["add_iteration"] = stub()
+    ex.consts["ParserConfig"] = pyvc.Namespace("ParserConfig", {"get_default_cfg": pyvc.intrinsic(lambda exq, pc, env, args, kwargs: "cfg")})
+    outs = ex.run_function(extract.stripped(f), {"trace_file_path": z3.String("trace_file_path"), "cfg": None}, [])
+    rets = [o for o in outs if o.kind == "ret"]
+    vcs = [core.VC(pv.name, pv.hyps, pv.goal, "vc", [f.fq], {}, note=pv.note) for pv in ex.vcs]
+    vcs.append(core.VC(f"{name}.returns", [], z3.BoolVal(len(rets) >= 1), "vc", [f.fq], {}, note=f"{len(rets)} returning path(s)"))
+    for k, o in enumerate(rets):
+        got = o.value[1] if isinstance(o.value, tuple) and len(o.value) == 3 else None
+        vcs.append(core.VC(f"{name}.links_built_on_every_path.{k}", [to_z3(c) for c in o.pc], z3.BoolVal(got is linked), "vc", [f.fq], {},
+                           note="the returned frame is the result of transform_correlation_to_index applied to the parsed frame"))
+    return vcs
+
+
 def units(ctx):
-    return [core.Unit(f"{PROP}.transform", transform_vcs, [TR + ".transform_correlation_to_index"]),
+    return [core.Unit(f"{PROP}.parse_trace_file", caller_vcs, [TR + ".parse_trace_file"]),
+            core.Unit(f"{PROP}.transform", transform_vcs, [TR + ".transform_correlation_to_index"]),
             core.Unit(f"{PROP}.get_cpu_gpu_correlation", cpu_gpu_vcs, [TR + ".get_cpu_gpu_correlation"])]
 
 
 SPEC = Spec(
     prop=PROP, level="proof",
-    functions=[(TR, "transform_correlation_to_index"), (TR, "get_cpu_gpu_correlation"), (TF, "CPUOperatorFilter.__call__"), (TF, "GPUKernelFilter.__call__"),
+    functions=[(TR, "parse_trace_file"), (TR, "transform_correlation_to_index"), (TR, "get_cpu_gpu_correlation"), (TF, "CPUOperatorFilter.__call__"), (TF, "GPUKernelFilter.__call__"),
                (TF, "_filter_gpu_kernels_with_cuda_sync")],
     units=units, bounded=[Bounded("links_vs_oracle", bounded)],
     trusted=["pandas contracts (selection, inner merge on one key, label scatter, np.minimum) as listed under assumptions",
